@@ -190,7 +190,8 @@ class PropertyRun:
                 continue
             printed.add(rp)
             print(f"VIOLATION property={self.prop} replay={rp}" + (f" {suffix}" if suffix else ""))
-        self.write_evidence(len(printed), known_lines, undecided, fallback, inconcl)
+        if not getattr(self, "partial", False):  # a partial run (--only-e1) must not overwrite the evidence file
+            self.write_evidence(len(printed), known_lines, undecided, fallback, inconcl)
         nob = len(self.obs)
         ndis = sum(1 for o in self.obs if o.status == "discharged")
         nev = sum(r.get("evaluations", 0) for r in self.bounded)
@@ -350,6 +351,9 @@ def load_prop(pid):
         bf = dict(getattr(mod, "BOUNDED_FOR", {}))
         bf.update(extra.get("BOUNDED_FOR", {}))
         mod.BOUNDED_FOR = bf
+        lv = getattr(index, "level_of", lambda p: None)(pid)
+        if lv:
+            mod.LEVEL = lv[0]
         if extra.get("EXPLANATION"):
             mod.EXPLANATION = extra["EXPLANATION"] + " || bounded part: " + getattr(mod, "EXPLANATION", "")
     return mod
@@ -374,6 +378,8 @@ def main(argv=None):
     run.run_extra()
     if not a.only_e1:
         run.run_e3()
+    else:
+        run.partial = True
     return run.finish()
 
 
